@@ -66,6 +66,8 @@ Inductive inode :=
   | IComment (idx : N) (s : str)
   | IPi (idx : N) (target data : str).
 
+Definition is_ielem (n : inode) : bool := match n with IElem _ _ _ _ => true | _ => false end.
+
 Record frame := mkFrame { f_idx : N; f_q : str; f_attrs : list (N * attr); f_kids : list inode (* newest first *) }.
 
 Record hstate := mkH {
@@ -131,6 +133,9 @@ Definition step (st : hstate) (e : sax_event) : option hstate :=
       end
   | EStart q a =>
       let st1 := flush_if flush_at_start st in
+      if is_nil (h_stack st1) && existsb is_ielem (h_top st1)
+      then None      (* XalanSourceTreeDocument::appendChildNode(element): a second document element, HIERARCHY_REQUEST_ERR *)
+      else
       match number_element (is_nil (h_stack st1)) (h_next st1) a with
       | (idx, l, n') => Some (mkH (mkFrame idx q l [] :: h_stack st1) (h_top st1) (h_buf st1) n')
       end
@@ -221,7 +226,16 @@ Fixpoint tnormal (t : tree) : bool :=
   | _ => true
   end.
 
-Definition top_ok (ts : list tree) : bool := forallb (fun t => negb (is_text t)) ts && forallb tnormal ts.
+(* at most one element (seen: an element came before) *)
+Fixpoint elems_ok (seen : bool) (ts : list tree) : bool :=
+  match ts with
+  | [] => true
+  | TElem _ _ _ :: r => negb seen && elems_ok true r
+  | _ :: r => elems_ok seen r
+  end.
+
+Definition top_ok (ts : list tree) : bool :=
+  forallb (fun t => negb (is_text t)) ts && forallb tnormal ts && elems_ok false ts.
 
 (* pre-order numbering: element, its attributes (in the order of order_attrs), its children *)
 Fixpoint number (first : bool) (n : N) (t : tree) : inode * N :=
